@@ -24,7 +24,9 @@ try:
     res["suite_tail"] = o[-600:]
     demo = meta["demo"]
     files = demo["file"] if isinstance(demo["file"], list) else [demo["file"]]
-    ddir = demo.get("dir", ".")
+    ddir = (demo.get("dir", ".") or ".").split()[0].rstrip(",;")
+    if not os.path.isdir(os.path.join(wt, ddir)):
+        ddir = "."
     for f in files:
         shutil.copy(os.path.join(src, os.path.basename(f)), os.path.join(wt, ddir, os.path.basename(f)))
     rc, o = sh(demo["run"])
